@@ -229,3 +229,29 @@ class program:
                 raise SampleAssemblyError(message) from e
 
         return data
+
+
+class program:
+    def cli(cls, command):
+
+        """Program initialization from cli command"""
+
+        warnings.warn('THIS PROGRAM IS HIGHLY EXPERIMENTAL!!!', ExperimentalFeatureWarning)
+
+        parser = argparse.ArgumentParser('MCMC haplotype calling via pedigree-annealing. ')
+
+        for arg in CALL_PEDIGREE_MCMC_PARSER_ARGUMENTS:
+
+            arg.add_to(parser)
+
+        if len(command) < 3:
+
+            parser.print_help()
+
+            sys.exit(1)
+
+        args = parser.parse_args(command[2:])
+
+        arguments = collect_call_pedigree_mcmc_program_arguments(args)
+
+        return cls(cli_command=command, **arguments)
